@@ -143,6 +143,7 @@ func TestWorker(t *testing.T) {
 			}
 			if job.Log {
 				fmt.Fprintf(out, "@@LOG %d %016x %s steps=%d v=%d\n", i, res.TraceHash, res.Digest, res.Steps, len(res.Violations))
+				out.Flush()
 			}
 			if res.Discarded != "" {
 				sum.Discarded++
